@@ -76,8 +76,10 @@ Slack == 3   \* microseconds of rounding per operation (float arithmetic in the 
 
 RateStep(s, e) ==
     CASE e.ev = "acquire" ->
-            LET cost == e.n * s.ival
-                burst == s.maxp * s.ival
+            \* (cost and burst in microseconds come with the event when the harness computed them: at high
+            \* rates a permit is a fraction of a microsecond)
+            LET cost == IF "cost" \in DOMAIN e THEN e.cost ELSE e.n * s.ival
+                burst == IF "burst" \in DOMAIN e THEN e.burst ELSE s.maxp * s.ival
                 lo2 == Max2(s.lo + cost, e.t0 - burst) - Slack
                 hi2 == Max2(s.hi + cost, e.t1 - burst) + Slack
                 \* needed wait = next - now, next in [lo, hi], now in [t0, t1]
